@@ -239,18 +239,19 @@ Qed.
 Lemma cmd_d_w st d n hc W l j ev :
   at_doc st d -> valid d -> 1 <= n ->
   enumerates (fun j => dcur d < j /\ word_start (word_cls W) (dtext d) j) l ->
-  pick l n = Some j -> j <= len (dtext d) ->
+  pick l n = Some j ->
   text_object (T_w W) d n hc = TO (mk1 (j - dcur d)) false /\
   (snd (translate_index_to_position d j) <> 0 ->
      removes st (op_delete true false st (mk1 (j - dcur d)) ev) (dcur d) j) /\
   (snd (translate_index_to_position d j) = 0 -> dcur d + 1 < j ->
      removes st (op_delete true false st (mk1 (j - dcur d)) ev) (dcur d) (j - 1)).
 Proof.
-  intros Ha Hv Hn Hl Hp Hj. pose proof (span_w d n hc W l Hv Hn Hl) as Ht. rewrite Hp in Ht.
+  intros Ha Hv Hn Hl Hp. pose proof (span_w d n hc W l Hv Hn Hl) as Ht. rewrite Hp in Ht.
   split; [exact Ht|].
-  assert (Hin : dcur d < j).
+  assert (Hin : dcur d < j /\ j <= len (dtext d)).
   { assert (In j l) by (unfold pick in Hp; destruct (n <? 1); [discriminate|]; eapply nth_error_In; exact Hp).
-    apply (proj2 Hl) in H. tauto. }
+    apply (proj2 Hl) in H. destruct H as [H1 [H2 _]]. apply clsat_nz_bounds in H2. lia. }
+  destruct Hin as [Hin Hj].
   pose proof Hv as [Hv0 Hv1].
   split; intros Hc.
   - pose proof (d_forward st ev (j - dcur d)) as G. cbv zeta in G. rewrite ?(at_doc_cur st d Ha), ?(at_doc_text st d Ha) in G.
@@ -268,17 +269,18 @@ Qed.
 Lemma cmd_d_b st d n hc W l j ev :
   at_doc st d -> valid d -> 1 <= n ->
   enumerates (fun j => j < dcur d /\ word_start (word_cls W) (dtext d) j) l ->
-  pick (rev l) n = Some j -> 0 <= j ->
+  pick (rev l) n = Some j ->
   0 < len (current_line_before_cursor d) ->
   text_object (T_b W) d n hc = TO (mk1 (j - dcur d)) false /\
   removes st (op_delete true false st (mk1 (j - dcur d)) ev) j (dcur d).
 Proof.
-  intros Ha Hv Hn Hl Hp Hj Hk. pose proof (span_b d n hc W l Hv Hn Hl) as Ht. rewrite Hp in Ht.
+  intros Ha Hv Hn Hl Hp Hk. pose proof (span_b d n hc W l Hv Hn Hl) as Ht. rewrite Hp in Ht.
   split; [exact Ht|].
-  assert (Hin : j < dcur d).
+  assert (Hin : j < dcur d /\ 0 <= j).
   { assert (In j l).
     { apply in_rev. unfold pick in Hp. destruct (n <? 1); [discriminate|]. eapply nth_error_In; exact Hp. }
-    apply (proj2 Hl) in H. tauto. }
+    apply (proj2 Hl) in H. destruct H as [H1 H2]. apply word_start_nonneg in H2. lia. }
+  destruct Hin as [Hin Hj].
   pose proof Hv as [Hv0 Hv1].
   pose proof (d_backward st ev (j - dcur d)) as G. cbv zeta in G. rewrite ?(at_doc_cur st d Ha), ?(at_doc_text st d Ha) in G.
   replace j with (dcur d + (j - dcur d)) at 2 by lia.
@@ -289,15 +291,16 @@ Qed.
 Lemma cmd_d_e st d n hc W l j ev :
   at_doc st d -> valid d -> 1 <= n ->
   enumerates (fun j => dcur d + 1 < j /\ word_end (word_cls W) (dtext d) j) l ->
-  pick l n = Some j -> j <= len (dtext d) ->
+  pick l n = Some j ->
   text_object (T_e W) d n hc = TO (mkto (j - 1 - dcur d) 0 INCL) false /\
   removes st (op_delete true false st (mkto (j - 1 - dcur d) 0 INCL) ev) (dcur d) j.
 Proof.
-  intros Ha Hv Hn Hl Hp Hj. pose proof (span_e d n hc W l Hv Hn Hl) as Ht. rewrite Hp in Ht.
+  intros Ha Hv Hn Hl Hp. pose proof (span_e d n hc W l Hv Hn Hl) as Ht. rewrite Hp in Ht.
   split; [exact Ht|].
-  assert (Hin : dcur d + 1 < j).
+  assert (Hin : dcur d + 1 < j /\ j <= len (dtext d)).
   { assert (In j l) by (unfold pick in Hp; destruct (n <? 1); [discriminate|]; eapply nth_error_In; exact Hp).
-    apply (proj2 Hl) in H. tauto. }
+    apply (proj2 Hl) in H. destruct H as [H1 [H2 _]]. apply clsat_nz_bounds in H2. lia. }
+  destruct Hin as [Hin Hj].
   pose proof Hv as [Hv0 Hv1].
   pose proof (d_inclusive st ev (j - 1 - dcur d)) as G. cbv zeta in G. rewrite ?(at_doc_cur st d Ha), ?(at_doc_text st d Ha) in G.
   replace j with (dcur d + (j - 1 - dcur d) + 1) at 2 by lia.
